@@ -166,6 +166,7 @@ class ScriptedRNG(np.random.Generator):
 
     def __init__(self, script):
         super().__init__(np.random.PCG64(0))
+        self.native_used = []
         self.script = list(script)
         self.pos = 0
         self.log = []
@@ -201,6 +202,28 @@ class ScriptedRNG(np.random.Generator):
 class NeedChoice(BaseException):
     def __init__(self, p):
         self.p = p
+
+
+_NATIVE = ("random", "uniform", "integers", "normal", "standard_normal", "permutation", "permuted", "shuffle", "multinomial",
+           "exponential", "standard_exponential", "gamma", "standard_gamma", "beta", "binomial", "geometric", "poisson", "bytes")
+
+
+def _note_native(self, name):
+    try:
+        object.__getattribute__(self, "native_used").append(name)
+    except AttributeError:
+        pass
+
+
+def _scripted_getattribute(self, name):
+    # any random primitive other than `choice`: the scripted stream cannot steer it, the run is then "not observable"
+    if name in _NATIVE:
+        _note_native(self, name)
+    return np.random.Generator.__getattribute__(self, name)
+
+
+ScriptedRNG.native_used = ()
+ScriptedRNG.__getattribute__ = _scripted_getattribute
 
 
 def enumerate_scripts(run, max_paths=20000):
